@@ -101,6 +101,35 @@ def c04(res):
     finally:
         drop_server(sb, srv)
     file_scenario_deviations(res, events, "c04-two-losses", "two consecutive lost acknowledgements are not survived by retransmission")
+    # sustained partial loss, end to end (D8): a receiver that gets the head of every window and loses
+    # its tail must go on - no two receive attempts in a row fail.  As a script for the real Worker ...
+    rounds, steps = 9, []
+    for r in range(rounds):
+        steps += [{"k": "data", "n": 3 * r + i, "id": 3 * r + i, "sz": "full", "dt": 0} for i in (1, 2, 3)]
+        steps += [{"k": "fail", "n": 0, "dt": 2}, {"k": "data", "n": 3 * r + 1, "id": 3 * r + 1, "sz": "full", "dt": 0}]
+    steps += [{"k": "data", "n": 3 * rounds + 1, "id": 3 * rounds + 1, "sz": "short", "dt": 0}]
+    cfg = {"role": "recv", "M": 65536, "W": 7, "NB": 0, "R": 1, "T": 2, "chk": False, "clean": True, "base0": 0,
+           "lastempty": False, "devfull": False}
+    W.run_vectors(res, write_vectors("recv-lossy-tail", [{"cfg": cfg, "steps": steps}]), "recv-lossy-tail", layer=W.WORKER)
+    # ... and with the real binaries, where the kernel does the dropping: 7 x 65 464 bytes do not fit
+    # the server's default socket buffer.  Only the final state is judged (the proxy cannot see drops).
+    sb, srv = with_server("c04-lossy-window", shared=True, ow=True)
+    finals = []
+    try:
+        content = X.make_file(24, 65464, 100)
+        se, ce, fin = IO.one_run(srv, sb, os.path.join(os.path.dirname(sb.base), "client"), "upload", "lossy.bin", content,
+                                 65464, 7, 1, "c04-lossy-upload-b65464-w7-n24", via_proxy=False, run_timeout=120)
+        finals.append(fin)
+    finally:
+        drop_server(sb, srv)
+    probe = C.Result(res.prop, res.tier)
+    judge_net_trace(probe, finals, "c04-lossy-window", module="Trace_Interop", sample_kind="final")
+    res.traces += probe.traces
+    res.events += probe.events
+    res.legs += probe.legs
+    for label, cnt in list(probe.drift.items()) + [(v[0], 1) for v in probe.violations]:
+        res.add_violation("LossyWindow:%s" % label, "C04: an upload that loses the tail of every window (blksize 65464, windowsize 7) does not complete although receive attempts keep succeeding (%s)" % label,
+                          {"kind": "interop-final", "label": label, "finals": finals})
 
 
 def c08_extras(res):
@@ -1596,6 +1625,8 @@ def c14(res):
                     with open(os.path.join(sb.send, name), "wb") as f:
                         f.write(content)
                 tmo = rng.choice([1, 1, 2, 5, 255 if nb <= 2 else 3])
+                if min(w, nb) * (blk + 800) > 140000:
+                    tmo = 1     # the kernel will drop part of every window: recovery costs one timeout per round
                 if sum(1 for f in finals if f["timed_out"]) >= 3:
                     break       # something is badly wrong; three stalled runs say enough
                 se, ce, fin = IO.one_run(srv, sb, work, direction, name, content, blk, w, tmo,
